@@ -39,11 +39,11 @@ type c09Msg struct {
 	qos      byte
 	pid      uint16
 	reqStamp int64
-	pubAck   int64 // PUBACK / PUBREC written by the broker
-	pubrel   int64 // publisher sent PUBREL
-	pubcomp  int64 // PUBCOMP written by the broker
-	subDone  int64 // subscriber sent its final ack (PUBACK / PUBCOMP)
-	subRec   int64 // subscriber sent PUBREC (QoS2)
+	pubAck   int64  // PUBACK / PUBREC written by the broker
+	pubrel   int64  // publisher sent PUBREL
+	pubcomp  int64  // PUBCOMP written by the broker
+	subDone  int64  // subscriber sent its final ack (PUBACK / PUBCOMP)
+	subRec   int64  // subscriber sent PUBREC (QoS2)
 	subPid   uint16 // packet identifier of the delivery the subscriber answered with PUBREC
 }
 
